@@ -3,6 +3,7 @@ package main
 import (
 	"fmt"
 	"go/token"
+	"go/constant"
 	"go/types"
 
 	"golang.org/x/tools/go/ssa"
@@ -49,6 +50,50 @@ func runC09(a *A) {
 		}
 		return isFieldOf(tm(c.Call.Value), "window.CountingWindow", "callback")
 	}
+	// sliceLiteral: v is []Row{...} with k elements - a fresh array nothing else refers to
+	sliceLiteral := func(v ssa.Value) (int64, bool) {
+		sl, ok := v.(*ssa.Slice)
+		if !ok || sl.Low != nil || sl.High != nil || sl.Max != nil {
+			return 0, false
+		}
+		al, ok := sl.X.(*ssa.Alloc)
+		if !ok || al.Comment != "slicelit" {
+			return 0, false
+		}
+		arr, ok := derefT(al.Type()).Underlying().(*types.Array)
+		if !ok {
+			return 0, false
+		}
+		return arr.Len(), true
+	}
+	// underThresholdEq: block b is reached only when cw.threshold == k held
+	underThresholdEq := func(b *ssa.BasicBlock, k int64) bool {
+		for _, gd := range guardsOf(b) {
+			bo, ok := gd.Cond.(*ssa.BinOp)
+			if !ok || !((bo.Op == token.EQL && gd.Sense) || (bo.Op == token.NEQ && !gd.Sense)) {
+				continue
+			}
+			x, y := bo.X, bo.Y
+			if _, isK := x.(*ssa.Const); isK {
+				x, y = y, x
+			}
+			c, isK := y.(*ssa.Const)
+			if isK && c.Value != nil && c.Value.Kind() == constant.Int && c.Int64() == k && isFieldOf(TermOf(x, nil), "window.CountingWindow", "threshold") {
+				return true
+			}
+		}
+		return false
+	}
+	// a delivery of a k-row literal where threshold == k is known is a complete window by construction (the special
+	// case COUNT(1): the row is its own window); shape/batch-cut judges it, the count comparison does not apply
+	literalWindow := func(in ssa.Instruction) bool {
+		c, ok := in.(*ssa.Call)
+		if !ok || len(c.Call.Args) == 0 {
+			return false
+		}
+		k, ok := sliceLiteral(c.Call.Args[len(c.Call.Args)-1])
+		return ok && underThresholdEq(in.Block(), k)
+	}
 	a.Rule("ordtab/count-threshold", 2, func() {
 		g := startClosure()
 		spec := OrdSpec{Roles: []string{"c", "N"},
@@ -66,7 +111,7 @@ func runC09(a *A) {
 			}}
 		a.OnlyIf(fname(g)+"#fire-threshold", g.Pos(), "a batch is delivered only when the key's buffered count reached the threshold", spec,
 			g.Blocks[0], nil, nil,
-			func(in ssa.Instruction, w *Walker) bool { return isDelivery(in, w.Term) },
+			func(in ssa.Instruction, w *Walker) bool { return isDelivery(in, w.Term) && !literalWindow(in) },
 			func(r map[string]int, _ map[string]bool) bool { return r["c"] >= r["N"] })
 		// the count is len(buffer after appending this row)
 		n := 0
@@ -152,6 +197,21 @@ func runC09(a *A) {
 		}
 		delivered = resolved
 		for _, d := range delivered {
+			if k, isLit := sliceLiteral(d); isLit {
+				// a literal batch: fresh by construction; complete only where threshold == its length is known
+				okAll := true
+				allInstrs(g, func(in ssa.Instruction) {
+					if isDelivery(in, func(v ssa.Value) *Term { return TermOf(v, nil) }) {
+						c := in.(*ssa.Call)
+						if c.Call.Args[len(c.Call.Args)-1] == d && !underThresholdEq(in.Block(), k) {
+							okAll = false
+						}
+					}
+				})
+				a.Check(okAll, fname(g)+"#batch-fresh", d.Pos(), fmt.Sprintf("the delivered batch is a fresh %d-row literal, delivered only where threshold == %d", k, k),
+					fmt.Sprintf("a %d-row literal is delivered as a window where threshold == %d is not known: the window would not have threshold rows", k, k))
+				continue
+			}
 			ms, ok := d.(*ssa.MakeSlice)
 			if !ok {
 				// hand-over: the batch is the key's filled buffer itself, cut to exactly threshold rows with
